@@ -179,6 +179,66 @@ def handler_rules(rep, u, vals):
                                           "pre=%s post=%s" % (sorted(map(str, pre)), sorted(map(str, post))))
 
 
+def disable_enable_cases(rep, u, vals):
+    """finite-domain evaluation: whenever the pre-handler disabled the task's I/O registration (a timeout on a persistent
+    task) and the callback asks to continue, the post-handler enables it again; same for the timer"""
+    from rules import r_stride
+    fpre, fpost = tp.need(u, "tp_task_handler_pre_int"), tp.need(u, "tp_task_handler_post_int")
+    more = tp.probe(tp.TASK_C, {"TP_EV_READ": "TP_EV_READ", "TP_F_ONESHOT": "TP_F_ONESHOT", "TP_F_DISPATCH": "TP_F_DISPATCH"}, "probe:task2")
+    if any(v is None for v in more.values()):
+        raise driver.AnalysisBroken("task flag constants not foldable")
+    TIMER, READ, ONE, DISP, CONT = vals["TP_EV_TIMER"], more["TP_EV_READ"], more["TP_F_ONESHOT"], more["TP_F_DISPATCH"], vals["TP_TASK_CB_CONTINUE"]
+
+    def sites(fn, enable):
+        out = {"tp_data": [], "tp_timer": []}
+        for pos, root, c, ps in fn.calls():
+            nm = c.get("fn") or ""
+            if "enable_args" not in nm or not c["args"] or const_val(c["args"][0]) != enable:
+                continue
+            last = core.strip_casts(c["args"][-1])
+            if last.get("k") == "un" and core.strip_casts(last["e"]).get("k") == "mem":
+                out.setdefault(core.strip_casts(last["e"])["f"], []).append((pos, c))
+        return out
+    pre_dis, post_en = sites(fpre, 0), sites(fpost, 1)
+    n = 0
+    bad = None
+    undec = None
+    for evk, one, disp, tmo in [(a, b, c, d) for a in (TIMER, READ) for b in (0, 1) for c in (0, 1) for d in (0, 30)]:
+        fl = (ONE if one else 0) | (DISP if disp else 0)
+        if one and disp:
+            continue        # refused by the validator
+        pe = r_stride.PE(u)
+        bpre = {"ev": 0x1000, "ev->event": evk, "ev->flags": 0, "tp_udata": 0x2000, "tp_udata->ident": 0x3000, "tptask": 0x4000,
+                "*(tptask)": 0x3000, "*(tptask)->event_flags": fl, "*(tptask)->timeout": tmo, "*(tptask)->event": READ,
+                "eof": 0x5000, "data2transfer_size": 0x5008}
+        bpost = {"ev": 0x1000, "ev->event": evk, "tptask": 0x3000, "tptask->event_flags": fl, "tptask->timeout": tmo, "tptask->event": READ,
+                 "cb_ret": CONT}
+        res = {}
+        for what in ("tp_data", "tp_timer"):
+            d = e = "no"
+            for pos, c in pre_dis.get(what, []):
+                r, _ = pe.reach_stmt(fpre, fpre.entry, set(fpre.reachable_blocks()), bpre, pos[0], fpre.blocks[pos[0]].elems[pos[1]])
+                d = "sure" if r == "sure" else ("unsure" if r == "unsure" and d != "sure" else d)
+            for pos, c in post_en.get(what, []):
+                r, _ = pe.reach_stmt(fpost, fpost.entry, set(fpost.reachable_blocks()), bpost, pos[0], fpost.blocks[pos[0]].elems[pos[1]])
+                e = "sure" if r == "sure" else ("unsure" if r == "unsure" and e != "sure" else e)
+            res[what] = (d, e)
+            if "unsure" in (d, e):
+                undec = "guard not evaluable for event=%s flags=0x%x" % ("TIMER" if evk == TIMER else "I/O", fl)
+            elif d == "sure" and e != "sure":
+                bad = bad or "%s event, ONESHOT=%d DISPATCH=%d timeout=%d: the pre-handler disables %s but the post-handler does not enable it again " \
+                             "(the task never sees that source again)" % ("timeout" if evk == TIMER else "I/O", one, disp, tmo, "the I/O registration" if what == "tp_data" else "the timer")
+        n += 1
+    desc = "what tp_task_handler_pre_int disables on a persistent task, tp_task_handler_post_int enables again when the callback continues"
+    if bad:
+        rep.violated("R-SIB", fpost, "disable-enable-cases", desc, bad)
+    elif undec:
+        rep.undecided("R-SIB", fpost, "disable-enable-cases", desc, undec)
+    else:
+        rep.proved("R-SIB", fpost, "disable-enable-cases", desc, "%d combinations of event kind, ONESHOT, DISPATCH and timeout" % n)
+    return n
+
+
 def lifecycle(rep, u, vals):
     fs = tp.need(u, "tp_task_stop")
     rep.functions.add(fs.name)
@@ -232,6 +292,7 @@ def run(rep, tier):
     rep.floor("event registration call sites with a task record", n, 12)
     handler_rules(rep, u, vals)
     lifecycle(rep, u, vals)
+    rep.floor("pre/post combinations", disable_enable_cases(rep, u, vals), 10)
     return driver.finish(
         rep, "other",
         "Static analysis of threadpool_task.c. Decided: %d registration calls agree on (event kind, record); single non-cyclic "
